@@ -198,12 +198,14 @@ def generate(rng, index: int, tier: str) -> dict:
                 else:
                     tl.append({"at": t + G.EPS, "op": "user.api", "target": ["ac", 0], "call": "set_fan_speed", "args": {"fan": rng.choice(["LOW", "HIGH", "AUTO", "MEDIUM"])}})
         elif kind == "unencodable":
-            which = rng.choice(["struct", "value", "noencoder"])
+            which = rng.choice(["struct", "value", "noencoder", "header"])
             if api:
                 # public call whose message cannot be encoded: a zone set-point outside one protocol byte
                 tl.append({"at": t, "op": "user.api", "target": ["zone", 0], "call": "set_target_temperature", "args": {"temperature": rng.choice([400.0, -20.0, 36.0 if gen == 5 else 300.0])}})
             elif which == "noencoder":
                 tl.append({"at": t, "op": "user.send_raw_object", "mid": 0x77, "policy": "idem"})
+            elif which == "header":
+                tl.append({"at": t, "op": "user.send_raw_object", "bad_header": True, "policy": "idem"})
             else:
                 if gen == 4:
                     bad = {"kind": "group_control", "group": 300, "power": "on"} if which == "struct" else {"kind": "error_info_request", "ac": 300}
